@@ -351,4 +351,13 @@ def unit_reset(S):
             S.prove(f"{tag}/iteration-count-zero", ctx, ir.seq(state.iteration_count.scalar(), 0), function=F_RESET, what="iteration counter starts at 0")
 
 
-UNITS = [(f"step:{c}", unit_step(c)) for c in CONFIGS] + [("loops", unit_loops), ("initial", unit_initial), ("reset", unit_reset)]
+def _stored_slot(kind):
+    """what `step` hands to the buffer is what the buffer holds: ReplayBuffer.add writes every field of one insertion (flags included) into the same slot, replacing whatever the slot
+    held before, also after wrap-around (contract stated in C06)"""
+    def unit(S):
+        from contracts import C06
+        C06.unit_add(kind)(S)
+    return unit
+
+
+UNITS = [("stored-slot:box", _stored_slot("box")), ("stored-slot:discrete", _stored_slot("discrete"))] + [(f"step:{c}", unit_step(c)) for c in CONFIGS] + [("loops", unit_loops), ("initial", unit_initial), ("reset", unit_reset)]
